@@ -139,6 +139,8 @@ def r3(ctx):
     t = norm(tv.node)
     ok = "for row in self.__structure:" in t and "term_variables[row[0]] = Variable.union(*(term.variables for term in row[1]))" in t
     ctx.check(ok, "C10.R3", "term_variables reads the scoped terms of the same structure row", tv.where, ctx.construct(tv, text="term_variables"), "row pairing changed")
+    from .c17 import alias_round_trip
+    alias_round_trip(ctx, "C10.R3")
     rv = P.method(MS, "required_variables", inherited=False)
     t = norm(rv.node)
     ok = "return self.variables_by_source.get('data', set())" in t and "if self.structure is None:" in t
